@@ -207,3 +207,37 @@ package ingest
 //@   requires o != nil && o.overlay != nil && o.base != nil
 //@   ensures implies(o.overlay.FindFeatureByID(id) != nil, result == o.overlay.FindFeatureByID(id))
 //@   ensures implies(o.overlay.FindFeatureByID(id) == nil, result == o.base.FindFeatureByID(id))
+
+// ---- C26: the tag changes report the first failure and stop --------------------------------
+// Ghost state: calls counts the world operations performed, okCalls those that succeeded,
+// failed records that one failed. Proved for every list of tag changes: Apply returns an
+// error exactly when a world operation failed, performs no operation after a failure, and
+// on success has applied every entry.
+//@ func MutableWorld.AddTag
+//@   trusted
+//@   sets calls = calls + 1
+//@   sets okCalls = okCalls + ite(result == nil, 1, 0)
+//@   sets failed = failed || result != nil
+//@ func MutableWorld.RemoveTag
+//@   trusted
+//@   sets calls = calls + 1
+//@   sets okCalls = okCalls + ite(result == nil, 1, 0)
+//@   sets failed = failed || result != nil
+//@ func AddTags.Apply
+//@   ghostvar calls = 0
+//@   ghostvar okCalls = 0
+//@   ghostvar failed = false
+//@   requires w != nil
+//@   loop 1 invariant rangeindex >= -1 && rangeindex < len(a) && !failed && calls == rangeindex + 1 && okCalls == rangeindex + 1
+//@   ensures (result1 != nil) == failed
+//@   ensures implies(result1 == nil, okCalls == len(a) && calls == len(a))
+//@   ensures implies(result1 != nil, calls == okCalls + 1)
+//@ func RemoveTags.Apply
+//@   ghostvar calls = 0
+//@   ghostvar okCalls = 0
+//@   ghostvar failed = false
+//@   requires w != nil
+//@   loop 1 invariant rangeindex >= -1 && rangeindex < len(r) && !failed && calls == rangeindex + 1 && okCalls == rangeindex + 1
+//@   ensures (result1 != nil) == failed
+//@   ensures implies(result1 == nil, okCalls == len(r) && calls == len(r))
+//@   ensures implies(result1 != nil, calls == okCalls + 1)
